@@ -498,7 +498,10 @@ function getStoreKeyChunkForArgumentValue(
       return argumentValue.value;
     }
     case 'Variable': {
-      return variables[argumentValue.name] ?? 'null';
+      // null (not the string 'null'): inside an object argument the two are
+      // stringified differently, and a missing variable must give the same key
+      // as the null literal the compiler writes for it.
+      return variables[argumentValue.name] ?? null;
     }
     case 'String': {
       return argumentValue.value;
